@@ -971,10 +971,11 @@ func Decls(ts ...*Term) string {
 	return sb.String()
 }
 
-// PrintAssert prints (assert t) using define-fun for shared non-leaf
-// subterms so that DAGs do not blow up as trees.
-func PrintAsserts(ts []*Term) string {
-	// count references
+// PrintAsserts prints (assert t) for every t and a define-fun for every
+// value term, using define-fun for shared non-leaf subterms so that DAGs do
+// not blow up as trees. It returns the script and the names under which the
+// value terms can be requested with get-value.
+func PrintAsserts(ts []*Term, values ...*Term) (string, []string) {
 	refs := map[*Term]int{}
 	var order []*Term
 	seen := map[*Term]bool{}
@@ -993,11 +994,15 @@ func PrintAsserts(ts []*Term) string {
 	for _, t := range ts {
 		rec(t)
 	}
+	for _, t := range values {
+		rec(t)
+		refs[t] += 2 // force a definition
+	}
 	names := map[*Term]string{}
 	var sb strings.Builder
 	n := 0
 	for _, t := range order {
-		if refs[t] > 1 && len(t.Args) > 0 && t.Sort != RegLan || (t.Sort == RegLan && refs[t] > 1 && len(t.Args) > 0) {
+		if refs[t] > 1 && len(t.Args) > 0 {
 			var b strings.Builder
 			t.write(&b, names)
 			n++
@@ -1011,5 +1016,11 @@ func PrintAsserts(ts []*Term) string {
 		t.write(&b, names)
 		fmt.Fprintf(&sb, "(assert %s)\n", b.String())
 	}
-	return sb.String()
+	var vnames []string
+	for _, t := range values {
+		var b strings.Builder
+		t.write(&b, names)
+		vnames = append(vnames, b.String())
+	}
+	return sb.String(), vnames
 }
